@@ -86,6 +86,13 @@ def renderer(F, R):
     mx = calls_to(b, 'backend::resources::mixer::Mixer::on_change_sample_rate', suffix=False)
     ok = len(mx) == 1 and all(b.dominates(mx[0][0], r) for r in rets) and describe(b, mx[0][1]['args'][1]) == 'sample_rate'
     R.check(ok, 'B.C16.renderer', 'mixer', 'the mixer is not told the new rate', detail='mixer.on_change_sample_rate(sample_rate)')
+    if len(st) == 1 and len(mx) == 1:
+        # a track created on another thread while the mixer is being told reads the shared rate for its own effects and is
+        # not in the mixer yet: it is only right if the new rate was published BEFORE the fan-out started
+        from ..rules import order_ok
+        R.check(order_ok(b, [st[0][0]], [mx[0][0]]), 'B.C16.renderer', 'publish-first',
+                'the shared sample rate is published after the mixer fan-out: a track created during the fan-out initialises its '
+                'effects with the old rate and is never told the new one', detail='shared.sample_rate.store ≺ mixer.on_change_sample_rate')
     nb = F.body('backend::renderer::Renderer::new')
     if R.check(nb is not None, 'B.C16.renderer', 'anchor:new', 'Renderer::new not found'):
         ok = False
